@@ -556,6 +556,7 @@ EntriesSeq == {SymE(R(<<"a">>), R(<<".">>)),
                Reg(R(<<"..", "out-evil", "x">>)),
                SymE(R(<<"..", "s">>), A(<<"a">>)),
                Reg(R(<<"a", "x">>)),
+               SymE(R(<<"b", "y", "s">>), A(<<"a">>)),      \* a link whose missing parent directories lie below "b"
                DirE(R(<<"b">>))}
 \* thorough: the same plus rejected targets, absolute spellings, long names, loops, big files, deeper links
 EntriesSeqBig == EntriesSeq \cup
